@@ -18,7 +18,8 @@ def _user_fns():
     def never(v): return False
     def always(v): return True
     def returns_obj(v): return [] if not v else [v]     # truthiness, not identity
-    return {f.__name__: f for f in (even, small, boom, keyerr, truthy, never, always, returns_obj)}
+    def first_positive(v): return v[0] > 0              # raises IndexError on an empty sequence
+    return {f.__name__: f for f in (even, small, boom, keyerr, truthy, never, always, returns_obj, first_positive)}
 
 
 USER_FNS = _user_fns()
